@@ -83,6 +83,8 @@ type monitor struct {
 
 	evMu sync.Mutex
 	ev   []string // bounded event log
+
+	openedConns sync.Map // gnet.Conn -> *connState: every connection object whose OnOpen has run
 }
 
 func newMonitor(name string, h hooks) *monitor {
@@ -253,6 +255,7 @@ func (m *monitor) OnOpen(c gnet.Conn) (out []byte, action gnet.Action) {
 	cs.opens = 1
 	atomic.StoreInt32(&cs.state, 1)
 	c.SetContext(cs)
+	m.openedConns.Store(c, cs)
 	m.logf("OnOpen tok=%d fd=%d loop=%d remote=%s local=%s", cs.tok, cs.fd, cs.loopIdx, cs.remote, cs.local)
 	if m.h.onOpen != nil {
 		out, action = m.h.onOpen(cs, c)
